@@ -7,7 +7,7 @@ META = {
     "id": "C04",
     "level": "model_checking",
     "technique": "TLA+ spec Dispatch (configuration product with Expected/Refuser derived from the availability of perturbative ingredients) checked by TLC for table consistency; every planned configuration turned into concrete cards and solved by the real solver (fixed-node quadrature shim, 2-point grid); outcome records (exception class, message, finiteness of every stored array) judged by TLC (DispatchTrace) with C04_Verdict",
-    "text": "The configuration space (QCD order 1-4 x QED order 0-2 x 8 solution methods x 3 scale-variation schemes x polarized x time-like x path shape single/up/down x inversion method x alpha_em running x whether the path has an nf=6 segment: 19200 configurations) is a set of initial states in TLC. The thorough tier executes all of it on the real solver, the quick tier a seeded covering subset that always contains every refusal class; TLC decides for each outcome whether it is finite-and-supported, a clean refusal (NotImplementedError/ValueError) of an unavailable ingredient, or a violation (crash with another exception, non-finite numbers, supported configuration refused, unavailable ingredient silently computed).",
+    "text": "The configuration space (QCD order 1-4 x QED order 0-2 x 8 solution methods x 3 scale-variation schemes x polarized x time-like x path shape single/up/down, and for two methods the degenerate shapes point (target = initial point) and wall (crossing that ends exactly on the matching scale with the upper nf) x inversion method x alpha_em running x whether the path has an nf=6 segment: 21120 configurations) is a set of initial states in TLC. The thorough tier executes all of it on the real solver, the quick tier a seeded covering subset that always contains every refusal class; TLC decides for each outcome whether it is finite-and-supported, a clean refusal (NotImplementedError/ValueError) of an unavailable ingredient, or a violation (crash with another exception, non-finite numbers, supported configuration refused, unavailable ingredient silently computed).",
     "note": "The quadrature shim replaces scipy.integrate.quad inside eko.evolution_operator by a 4-node rule: every eko function on the path still runs, integrals are not accurate (finiteness and dispatch are what C04 states). QED with polarized/time-like flags is not specified by the documentation (the QED kernels ignore the flags): either outcome accepted there, crashes still flagged. Couplings in the perturbative range (alpha_s(M_Z)=0.118, scales 2-7 GeV).",
     "design_ref": "4.9, 5 C04",
     "rule": "configuration record; distinct by all fields; non-trivial = not refused at card level",
@@ -57,6 +57,10 @@ def plan(chk):
         lambda c: c["top"] and c["qcd"] == 3 and c["qed"] == 0 and c["method"] in ("iterate-exact", "perturbative-exact", "decompose-exact") and not c["pol"] and not c["tl"],
         lambda c: c["top"] and c["qcd"] == 4 and c["qed"] == 0 and not c["pol"] and not c["tl"],
     ]
+    # degenerate shapes: zero-length segments under every scale-variation scheme, with and without QED
+    must += [(lambda c, sh=sh, sv=sv, q=q: c["shape"] == sh and c["sv"] == sv and (c["qed"] > 0) == q and c["method"] == "iterate-exact"
+              and not c["pol"] and not c["tl"] and not c["top"])
+             for sh in ("point", "wall") for sv in ("none", "expo", "expanded") for q in (False, True)]
     for m in must:
         picked += [c for c in pool if m(c)][:3]
     picked += chk.rng.sample(pool, 150)
